@@ -37,8 +37,7 @@ man = dict(
 json.dump(man, open(os.path.join(V, 'MANIFEST.json'), 'w'), indent=1)
 kf = []
 for fn in sorted(glob.glob(os.path.join(V, 'known_findings.d', 'C*.json'))):
-    if os.path.basename(fn)[:-5] in integrated:
-        kf += json.load(open(fn))
+    kf += json.load(open(fn))
 json.dump(dict(comment='Read-only at run time. status=open entries suppress exactly the failures whose minimised '
                        'signature matches; status=fixed entries suppress nothing.', findings=kf),
           open(os.path.join(V, 'known_findings.json'), 'w'), indent=1)
